@@ -66,11 +66,11 @@ type Config struct {
 	Username bool     `json:"username,omitempty"`
 	Refusal  int      `json:"refusal,omitempty"` // authboss.MWRespondOnFailure
 
-	LockAfter    int `json:"lock_after,omitempty"`
-	LockWindowS  int `json:"lock_window_s,omitempty"`
-	LockDurS     int `json:"lock_dur_s,omitempty"`
-	ExpireS      int `json:"expire_s,omitempty"`
-	RecoverDurS  int `json:"recover_dur_s,omitempty"`
+	LockAfter    int  `json:"lock_after,omitempty"`
+	LockWindowS  int  `json:"lock_window_s,omitempty"`
+	LockDurS     int  `json:"lock_dur_s,omitempty"`
+	ExpireS      int  `json:"expire_s,omitempty"`
+	RecoverDurS  int  `json:"recover_dur_s,omitempty"`
 	RecoverLogin bool `json:"recover_login,omitempty"`
 	EmailAuth    bool `json:"email_auth,omitempty"`
 
@@ -86,6 +86,8 @@ type Config struct {
 	ModuleList   bool     `json:"module_list,omitempty"`
 	HTTPS        bool     `json:"https,omitempty"`
 	Providers    []string `json:"providers,omitempty"`
+	Mailer       string   `json:"mailer,omitempty"`         // "" harness mailbox | "log" defaults.LogMailer | "smtp" defaults.SMTPMailer against a loopback server
+	ShippedLog   bool     `json:"shipped_logger,omitempty"` // defaults.Logger instead of the capturing logger
 
 	Accounts []AccountSpec `json:"accounts"`
 	Browsers int           `json:"browsers"`
@@ -157,9 +159,16 @@ type World struct {
 
 	OAuthCodes map[string]OAuthIdentity
 
-	mu       sync.Mutex
-	inflight int
-	server   *httptest.Server
+	// shipped components (C20)
+	LogBuf  *SyncBuffer
+	MailBuf *SyncBuffer
+	SMTP    *FakeSMTP
+
+	mu          sync.Mutex
+	inflight    int
+	MaxInflight int
+	Concurrent  bool // requests are issued from several goroutines (C20)
+	server      *httptest.Server
 }
 
 var (
@@ -361,7 +370,23 @@ func NewWorld(cfg Config) (w *World, err error) {
 	defaults.SetCore(&ab.Config, cfg.JSON, cfg.Username)
 	ab.Config.Core.Logger = w.Log
 	ab.Config.Core.Mailer = w.Mail
-	ab.Config.Core.ErrorHandler = errWrap{write500: cfg.Err500, log: w.Log}
+	if cfg.ShippedLog {
+		w.LogBuf = &SyncBuffer{}
+		ab.Config.Core.Logger = defaults.NewLogger(w.LogBuf)
+	}
+	switch cfg.Mailer {
+	case "log":
+		w.MailBuf = &SyncBuffer{}
+		ab.Config.Core.Mailer = defaults.NewLogMailer(w.MailBuf)
+	case "smtp":
+		srv, err := NewFakeSMTP()
+		if err != nil {
+			return nil, err
+		}
+		w.SMTP = srv
+		ab.Config.Core.Mailer = defaults.NewSMTPMailer(srv.Addr(), nil)
+	}
+	ab.Config.Core.ErrorHandler = errWrap{write500: cfg.Err500, log: ab.Config.Core.Logger}
 	br := ab.Config.Core.BodyReader.(*defaults.HTTPBodyReader)
 	if len(cfg.RegWhitelist) > 0 {
 		br.Whitelist["register"] = append(br.Whitelist["register"], cfg.RegWhitelist...)
@@ -610,6 +635,9 @@ func (w *World) buildHandler() {
 		w.mu.Lock()
 		w.inflight++
 		n := w.inflight
+		if n > w.MaxInflight {
+			w.MaxInflight = n
+		}
 		w.mu.Unlock()
 		if rec, ok := r.Context().Value(ctxProbe).(*Record); ok && rec != nil && n > rec.InFlight {
 			rec.InFlight = n
@@ -756,6 +784,9 @@ func (w *World) Do(q Req) *Resp {
 	req = req.WithContext(ctx)
 
 	out := &Resp{SessBefore: jar.SessionCopy(), CookBefore: jar.CookieCopy()}
+	if w.Concurrent {
+		return w.doConcurrent(out, jar, req, rec)
+	}
 	nm, ns, nl := w.Mail.Len(), w.SMS.Len(), w.Log.Len()
 	w.B.Reset(q.Fault)
 	rr := &recWriter{ResponseRecorder: httptest.NewRecorder()}
@@ -803,6 +834,38 @@ func (w *World) Do(q Req) *Resp {
 	return out
 }
 
+// doConcurrent is Do without the per-request bookkeeping that only makes
+// sense when requests are serialised (backend call lists, mail/log deltas).
+func (w *World) doConcurrent(out *Resp, jar *Jar, req *http.Request, rec *Record) *Resp {
+	rr := &recWriter{ResponseRecorder: httptest.NewRecorder()}
+	out.T0 = time.Now()
+	func() {
+		defer func() {
+			if p := recover(); p != nil {
+				out.Panic = p
+			}
+		}()
+		w.Handler.ServeHTTP(rr, req)
+	}()
+	out.T1 = time.Now()
+	out.Status, out.Wrote, out.Header, out.Body = rr.Code, rr.wrote, rr.Header(), rr.Body.Bytes()
+	if strings.HasPrefix(out.Header.Get("Content-Type"), "application/json") {
+		var m map[string]interface{}
+		if json.Unmarshal(out.Body, &m) == nil {
+			out.JSON = m
+		}
+	}
+	out.Location = out.Header.Get("Location")
+	if out.Location == "" && out.JSON != nil {
+		if s, ok := out.JSON["location"].(string); ok {
+			out.Location = s
+		}
+	}
+	out.SessAfter, out.CookAfter = jar.SessionCopy(), jar.CookieCopy()
+	out.Rec = *rec
+	return out
+}
+
 // Advance moves virtual time forward by d.
 func (w *World) Advance(d time.Duration) {
 	w.Store.ShiftTimes(d)
@@ -814,6 +877,10 @@ func (w *World) Advance(d time.Duration) {
 
 // Close releases the socket server, if one was started.
 func (w *World) Close() {
+	if w.SMTP != nil {
+		w.SMTP.Close()
+		w.SMTP = nil
+	}
 	if w.server != nil {
 		w.server.Close()
 		w.server = nil
